@@ -51,7 +51,8 @@ def obj_path(ds):
 
 def iface_name(ds):
     n = 2 + ds.choose(2)
-    return '.'.join(['org', 'sim'][:1] + [ds.pick(WORDS[:6] + ['I1', 'I2']) for _ in range(n - 1)])
+    return '.'.join(['org', 'sim'][:1] + [ds.pick(WORDS[:6] + ['I1', 'I2', 'z_9', '_u', 'A0_b'])
+                                          for _ in range(n - 1)])
 
 
 def member_name(ds):
